@@ -8,12 +8,15 @@ import (
 	"fmt"
 	"go/token"
 	"go/types"
+	"os"
 	"sort"
 	"strings"
 	"time"
 
 	"golang.org/x/tools/go/ssa"
 )
+
+var traceDecisions = os.Getenv("GOSYM_TRACE") != ""
 
 type decKind uint8
 
@@ -263,6 +266,13 @@ func (e *Engine) branch(cond *Term) bool {
 	}
 	e.trace = append(e.trace, d)
 	e.tpos++
+	if traceDecisions && !d.done {
+		fn := "?"
+		if n := len(e.curFn); n > 0 {
+			fn = e.curFn[n-1].String()
+		}
+		fmt.Fprintf(os.Stderr, "FORK depth=%d in %s cond=%s\n", len(e.trace), fn, cond.str(3))
+	}
 	if d.val == 1 {
 		e.addPC(cond)
 		return true
@@ -629,7 +639,7 @@ func (e *Engine) model(extra *Term) map[string]any {
 		switch rf.sv.kind {
 		case "int":
 			if v.w <= 64 {
-				m[rf.sv.tag] = v.lo
+				m[rf.sv.tag] = fmt.Sprint(v.lo) // decimal string: JSON numbers lose precision above 2^53
 			} else {
 				m[rf.sv.tag] = "0x" + v.Big().Text(16)
 			}
